@@ -125,21 +125,189 @@ def _orient(fn, want_texts):
     return n
 
 
+# ---- statement-shape normalisation ---------------------------------------------------------------------------
+#
+# Three more behaviour-preserving rewrites are undone against the snapshot, so that rules which read the shape of a
+# statement are not disturbed by them:
+#   * a result variable introduced or removed:  `v = e; return v`  <->  `return e`
+#   * the branches of an if/else exchanged under a negated test:  `if not c: B else: A`  <->  `if c: A else: B`
+#   * an augmented assignment to a plain name written out:  `x = x + e`  <->  `x += e`
+# Each rewrite is applied only when the snapshot has exactly the other form at that place (same function, same text),
+# and each is an equivalence on the statement level (the introduced / removed local is not used anywhere else).
+
+def _blocks(fn):
+    for n in ast.walk(fn):
+        for fld in ('body', 'orelse', 'finalbody'):
+            b = getattr(n, fld, None)
+            if isinstance(b, list) and b and isinstance(b[0], ast.stmt):
+                yield b
+
+
+def _plain_else(node):
+    return isinstance(node, ast.If) and node.orelse and not (len(node.orelse) == 1 and isinstance(node.orelse[0], ast.If))
+
+
+def _is_elif_arm(fn, node):
+    for x in ast.walk(fn):
+        if isinstance(x, ast.If) and x.orelse == [node]:
+            return True
+    return False
+
+
+def _result_pairs(fn):
+    """[(block, index, name)] of `name = e` directly followed by `return name`, where name is used in such pairs only."""
+    out = []
+    uses = {}
+    for x in ast.walk(fn):
+        if isinstance(x, ast.Name):
+            uses[x.id] = uses.get(x.id, 0) + 1
+    pairs = {}
+    for b in _blocks(fn):
+        for i in range(len(b) - 1):
+            a, r = b[i], b[i + 1]
+            if isinstance(a, ast.Assign) and len(a.targets) == 1 and isinstance(a.targets[0], ast.Name) and isinstance(r, ast.Return) \
+                    and isinstance(r.value, ast.Name) and r.value.id == a.targets[0].id \
+                    and not any(isinstance(x, ast.Name) and x.id == r.value.id for x in ast.walk(a.value)):
+                out.append((b, i, r.value.id))
+                pairs[r.value.id] = pairs.get(r.value.id, 0) + 1
+    return [(b, i, name) for b, i, name in out if uses.get(name) == 2 * pairs[name]]
+
+
+def _aug_text(a):
+    """`x = x OP e` as the text of `x OP= e`, or None."""
+    if isinstance(a, ast.Assign) and len(a.targets) == 1 and isinstance(a.targets[0], ast.Name) and isinstance(a.value, ast.BinOp) \
+            and isinstance(a.value.left, ast.Name) and a.value.left.id == a.targets[0].id:
+        return ast.unparse(ast.AugAssign(target=ast.Name(id=a.targets[0].id, ctx=ast.Store()), op=a.value.op, value=a.value.right))
+    return None
+
+
+def _expanded_text(a):
+    if isinstance(a, ast.AugAssign) and isinstance(a.target, ast.Name):
+        return ast.unparse(ast.Assign(targets=[ast.Name(id=a.target.id, ctx=ast.Store())],
+                                      value=ast.BinOp(left=ast.Name(id=a.target.id, ctx=ast.Load()), op=a.op, right=a.value), lineno=0))
+    return None
+
+
+def shape_of(fn):
+    """What the snapshot records about the statement shapes of one function."""
+    out = {}
+    res = [[name, ast.unparse(b[i].value)] for b, i, name in _result_pairs(fn)]
+    if res:
+        out['results'] = res
+    rets = sorted(set(ast.unparse(r.value) for r in ast.walk(fn) if isinstance(r, ast.Return) and r.value is not None and not isinstance(r.value, (ast.Name, ast.Constant))))
+    if rets:
+        out['returns'] = rets
+    tests = sorted(set(ast.unparse(x.test) for x in ast.walk(fn) if _plain_else(x)))
+    if tests:
+        out['iftests'] = tests
+    aug = sorted(set(ast.unparse(a) for a in ast.walk(fn) if isinstance(a, ast.AugAssign) and isinstance(a.target, ast.Name)))
+    if aug:
+        out['aug'] = aug
+    exp = sorted(set(ast.unparse(a) for a in ast.walk(fn) if _aug_text(a) is not None))
+    if exp:
+        out['expanded'] = exp
+    return out
+
+
+def _inline_new_results(fn, ref_locals, ref_shape):
+    """`v = e; return v` with v a local the snapshot does not have, where the snapshot returns e directly."""
+    n = 0
+    want = set(ref_shape.get('returns', []))
+    for b, i, name in sorted(_result_pairs(fn), key=lambda t: -t[1]):
+        if name in ref_locals:
+            continue
+        if ast.unparse(b[i].value) in want or not want:
+            b[i:i + 2] = [ast.copy_location(ast.Return(value=b[i].value), b[i])]
+            n += 1
+    return n
+
+
+def _outline_results(fn, ref_shape):
+    """`return e` where the snapshot has `R = e; return R` and R is free in the function."""
+    n = 0
+    have = set(x.id for x in ast.walk(fn) if isinstance(x, ast.Name)) | _params(fn)
+    for name, text in ref_shape.get('results', []):
+        if name in have:
+            continue
+        hits = [(b, i) for b in _blocks(fn) for i, r in enumerate(b) if isinstance(r, ast.Return) and r.value is not None and ast.unparse(r.value) == text]
+        if len(hits) != 1:
+            continue
+        b, i = hits[0]
+        r = b[i]
+        a = ast.copy_location(ast.Assign(targets=[ast.copy_location(ast.Name(id=name, ctx=ast.Store()), r)], value=r.value, lineno=r.lineno), r)
+        r2 = ast.copy_location(ast.Return(value=ast.copy_location(ast.Name(id=name, ctx=ast.Load()), r)), r)
+        b[i:i + 1] = [a, r2]
+        have.add(name)
+        n += 1
+    return n
+
+
+def _restore_branch_order(fn, ref_shape):
+    n = 0
+    want = set(ref_shape.get('iftests', []))
+    for x in ast.walk(fn):
+        if not _plain_else(x):
+            continue
+        t = ast.unparse(x.test)
+        if t in want:
+            continue
+        if isinstance(x.test, ast.UnaryOp) and isinstance(x.test.op, ast.Not) and ast.unparse(x.test.operand) in want:
+            x.test = x.test.operand
+        elif ast.unparse(ast.UnaryOp(op=ast.Not(), operand=x.test)) in want:
+            x.test = ast.copy_location(ast.UnaryOp(op=ast.Not(), operand=x.test), x.test)
+        else:
+            continue
+        x.body, x.orelse = x.orelse, x.body
+        n += 1
+    return n
+
+
+def _restore_augmented(fn, ref_shape):
+    n = 0
+    aug = set(ref_shape.get('aug', []))
+    exp = set(ref_shape.get('expanded', []))
+    for b in _blocks(fn):
+        for i, a in enumerate(b):
+            t = _aug_text(a)
+            if t is not None and t in aug and ast.unparse(a) not in exp:
+                b[i] = ast.copy_location(ast.AugAssign(target=ast.copy_location(ast.Name(id=a.targets[0].id, ctx=ast.Store()), a), op=a.value.op, value=a.value.right), a)
+                n += 1
+                continue
+            e = _expanded_text(a)
+            if e is not None and e in exp and ast.unparse(a) not in aug:
+                b[i] = ast.copy_location(ast.Assign(targets=[ast.copy_location(ast.Name(id=a.target.id, ctx=ast.Store()), a)],
+                                                    value=ast.copy_location(ast.BinOp(left=ast.copy_location(ast.Name(id=a.target.id, ctx=ast.Load()), a), op=a.op, right=a.value), a),
+                                                    lineno=a.lineno), a)
+                n += 1
+    return n
+
+
 def normalise(tree, path, ref=None):
     """Rename locals of the functions in `tree` back to their reference names and restore the reference
     orientation of mirrored comparisons. Returns the number of functions changed."""
     ref = reference() if ref is None else ref
     table = ref.get(path)
     ctable = ref.get('#compare', {}).get(path, {})
-    if not table and not ctable:
+    if not table and not ctable and not ref.get('#shape', {}).get(path):
         return 0
     table = table or {}
+    stable = ref.get('#shape', {}).get(path, {})
     changed = 0
     for dotted, fn in functions(tree):
+        shp = stable.get(dotted)
+        if shp is not None or dotted in table:
+            # a result variable the snapshot does not know goes first: it would otherwise defeat the alignment of locals
+            changed += _inline_new_results(fn, set(table.get(dotted, [])), shp or {})
         changed += _normalise_locals(dotted, fn, table)
         want_c = ctable.get(dotted)
         if want_c:
             changed += 1 if _orient(fn, set(want_c)) else 0
+        if shp:
+            changed += _restore_branch_order(fn, shp)
+            changed += _restore_augmented(fn, shp)
+            changed += _outline_results(fn, shp)
+    if changed:
+        ast.fix_missing_locations(tree)
     return changed
 
 
